@@ -281,8 +281,8 @@ type inst struct {
 	gating bool
 	parked []*parked
 
-	log     []micro // appended from controller goroutines; read only after synctest.Wait()
-	hev     []string
+	log      []micro // appended from controller goroutines; read only after synctest.Wait()
+	hev      []string
 	callerG  uint64           // goroutine currently inside ForceFailover/ForceFailback (0 = none)
 	inflight map[uint64]entry // executions of executeFailover/executeFailback under way (entered, not yet returned), by goroutine
 }
@@ -356,6 +356,8 @@ func (in *inst) Apply(ev core.Event) map[string]any {
 	case "adv":
 		time.Sleep(time.Duration(q) * Quantum)
 		dt = q
+	case "advms": // directed histories only: an advance by q milliseconds, off the quantum grid (never onto a whole second)
+		time.Sleep(time.Duration(q) * time.Millisecond)
 	case "force_failover":
 		if in.s.Grace > 0 {
 			// the operator's command never falls on the very instant at which a timer goroutine started
@@ -395,7 +397,7 @@ func (in *inst) Apply(ev core.Event) map[string]any {
 	in.settle()
 	// the step lasts as long as the call took in virtual time (ForceFailover may sit out the grace
 	// period); the harness then waits for the next quantum boundary so that its actions stay on the grid
-	if r := time.Since(start) % Quantum; r != 0 {
+	if r := time.Since(start) % Quantum; r != 0 && op != "advms" {
 		time.Sleep(Quantum - r)
 		in.settle()
 	}
